@@ -60,6 +60,9 @@ func ValidVariants(s *Schema) []Variant {
 			m = s.Clone()
 			m.Defs[di].Fields[0].Args = append(m.Defs[di].Fields[0].Args, argD("opt", N("Int"), 5).D("optional"))
 			if !implementsAny(d) {
+				m2 := s.Clone()
+				m2.Defs[di].Fields[0].Args = append(m2.Defs[di].Fields[0].Args, argD("blank", N("String"), ""), argD("nought", N("Int"), 0), argD("off", N("Boolean"), false), argD("none", L(N("Int")), []interface{}{}))
+				add(m2, "optional arguments whose defaults are the empty string, zero, false and the empty list")
 				add(m, "optional argument with default and description")
 			} else {
 				add(m, "optional extra argument on an implementing field")
@@ -131,10 +134,16 @@ func ValidVariants(s *Schema) []Variant {
 			m = s.Clone()
 			m.Defs = append(m.Defs, (&Def{Kind: KInput, Name: d.Name, Fields: []*Field{ifld("ext", N("String"))}}).Ext())
 			add(m, "input field through extend")
+			m = s.Clone()
+			m.Defs[di].Fields = append(m.Defs[di].Fields, ifldD("blank", N("String"), ""), ifldD("nought", N("Int"), 0), ifldD("off", N("Boolean"), false))
+			add(m, "input fields whose defaults are the empty string, zero and false")
 		case KDirective:
 			m := s.Clone()
 			m.Defs[di].Args = append(m.Defs[di].Args, argD("extra", N("Boolean"), true))
 			add(m, "directive argument with default")
+			m = s.Clone()
+			m.Defs[di].Args = append(m.Defs[di].Args, argD("blank", N("String"), ""), argD("off", N("Boolean"), false))
+			add(m, "directive arguments whose defaults are the empty string and false")
 		}
 	}
 	// directive uses at every declared location of every directive
